@@ -65,13 +65,14 @@ package scorch
 //@ spec tfrShape(i *IndexSnapshotTermFieldReader) bool = i.snapshot != nil && offsetsOK(i.snapshot) && len(i.iterators) == len(i.snapshot.offsets) && \
 //@     0 <= i.segmentOffset && i.segmentOffset <= len(i.iterators) && forall(k, 0, len(i.iterators), i.iterators[k] != nil) && \
 //@     forall(p, 0, len(i.iterators), forall(q, p+1, len(i.iterators), i.iterators[p] != i.iterators[q])) && \
-//@     forall(k, 0, len(i.iterators)-1, i.snapshot.offsets[k] + segCount(i.iterators[k]) <= i.snapshot.offsets[k+1])
+//@     forall(k, 0, len(i.iterators)-1, i.snapshot.offsets[k] + segCount(i.iterators[k]) <= i.snapshot.offsets[k+1]) && forall(k, 0, len(i.iterators), segCount(i.iterators[k]) < 4611686018427387904)
 // iterators of later segments are untouched; a started iterator never ran ahead of the reader;
 // what the current segment can still deliver lies beyond the last returned id
 //@ spec tfrCursor(i *IndexSnapshotTermFieldReader) bool = forall(k, i.segmentOffset+1, len(i.iterators), !i.iterators[k].pstarted) && \
 //@     forall(k, 0, len(i.iterators), implies(i.iterators[k].pstarted, i.gstarted && i.iterators[k].plast < segCount(i.iterators[k]) && i.snapshot.offsets[k] + i.iterators[k].plast <= i.glast)) && \
 //@     implies(i.segmentOffset < len(i.iterators) && i.iterators[i.segmentOffset].pstarted && !i.iterators[i.segmentOffset].pdone, i.glast == i.snapshot.offsets[i.segmentOffset] + i.iterators[i.segmentOffset].plast) && \
-//@     implies(i.gstarted && i.segmentOffset < len(i.iterators) && !i.iterators[i.segmentOffset].pstarted, i.glast < i.snapshot.offsets[i.segmentOffset])
+//@     implies(i.gstarted && i.segmentOffset < len(i.iterators) && !i.iterators[i.segmentOffset].pstarted, i.glast < i.snapshot.offsets[i.segmentOffset]) && \
+//@     implies(i.gstarted && i.segmentOffset + 1 < len(i.iterators), i.glast < i.snapshot.offsets[i.segmentOffset+1])
 
 // Next: ids strictly ascending.
 //@ assume func segment.DiskStatsReporter.BytesRead(it)
